@@ -175,5 +175,63 @@ theorem keepRows_total {t : Table} {n : Nat} (hr : t.Rect n) (hne : t ≠ []) (p
   rw [hf]
   split <;> rfl
 
+/-- a callable that answers `p i` on every row: `keepRows` is the total case -/
+theorem keepRows_ok {t : Table} {n : Nat} (hr : t.Rect n) (hne : t ≠ []) (keep : Nat → Except Err Bool) (p : Nat → Bool)
+    (h : ∀ i < n, keep i = .ok (p i)) :
+    t.keepRows keep =
+      .ok (if ((List.range n).filter p).isEmpty then [] else t.gatherRows ((List.range n).filter p)) := by
+  rw [← keepRows_total hr hne p]
+  unfold keepRows
+  rw [nrows_of_rect hr hne, mapE_of_ok (g := p) (fun i hi => h i (by simpa using hi)),
+    mapE_of_ok (f := fun i => (Except.ok (p i) : Except Err Bool)) (g := p) (fun _ _ => rfl)]
+
+/-- the first failing element decides `mapE` -/
+theorem mapE_error_at {α β ε} (f : α → Except ε β) (e : ε) :
+    ∀ (xs : List α) (k : Nat) (hk : k < xs.length), f xs[k] = .error e →
+      (∀ j (hj : j < k), ∃ b, f (xs[j]'(Nat.lt_trans hj hk)) = .ok b) → mapE f xs = .error e
+  | [], k, hk, _, _ => by cases hk
+  | x :: xs, 0, _, he, _ => by
+      simp only [List.getElem_cons_zero] at he
+      simp only [mapE, he]
+  | x :: xs, k + 1, hk, he, hb => by
+      obtain ⟨b, hb0⟩ := hb 0 (Nat.succ_pos k)
+      simp only [List.getElem_cons_zero] at hb0
+      have ih := mapE_error_at f e xs k (by simpa using hk) (by simpa using he) (fun j hj => by
+        obtain ⟨b, h⟩ := hb (j + 1) (Nat.succ_lt_succ hj)
+        exact ⟨b, by simpa using h⟩)
+      simp only [mapE, hb0, ih]
+
+/-- a callable that raises on row `i` (and answers on the rows before it): the call raises that error -/
+theorem keepRows_error {t : Table} {n : Nat} (hr : t.Rect n) (hne : t ≠ []) (keep : Nat → Except Err Bool)
+    (i : Nat) (hi : i < n) (e : Err) (he : keep i = .error e) (hb : ∀ j < i, ∃ b, keep j = .ok b) :
+    t.keepRows keep = .error e := by
+  unfold keepRows
+  rw [nrows_of_rect hr hne, mapE_error_at keep e (List.range n) i (by simpa using hi) (by simpa using he)
+    (fun j hj => by simpa using hb j hj)]
+
+/-- a key that is not a column: `_row_check` raises `KeyError` whatever the other conditions -/
+theorem mapE_rowCheck_missing {t : Table} (i : Nat) (conds : List (String × Cond))
+    (h : ∃ kc ∈ conds, t.has kc.1 = false) : mapE (t.rowCheck i) conds = .error .key := by
+  induction conds with
+  | nil => obtain ⟨kc, hkc, _⟩ := h; cases hkc
+  | cons kc rest ih =>
+    simp only [mapE]
+    cases hh : t.has kc.1 with
+    | false =>
+      have : t.cellAt i kc.1 = Option.none := by
+        unfold cellAt
+        cases hc : t.col? kc.1 with
+        | none => rfl
+        | some col => have := (has_iff_col? t kc.1).2 ⟨col, hc⟩; rw [hh] at this; cases this
+      simp [rowCheck, this]
+    | true =>
+      obtain ⟨col, hcol⟩ := (has_iff_col? t kc.1).1 hh
+      have hrest : ∃ kc' ∈ rest, t.has kc'.1 = false := by
+        obtain ⟨kc', hm, hf⟩ := h
+        rcases List.mem_cons.1 hm with rfl | hm
+        · rw [hh] at hf; cases hf
+        · exact ⟨kc', hm, hf⟩
+      simp [rowCheck, cellAt_of_col hcol, ih hrest]
+
 end Table
 end Pyg
